@@ -619,7 +619,7 @@ def known_case(cfg="plain"):
     for r in range(25):
         tl += ["ts %d %d" % (k, r) for k in range(NKEY)] + ["tr %d" % k for k in range(NKEY)]
     return {"cfg": cfg, "T": 3, "main": 1, "gcthr": 1, "barrier": 0, "nmutex": 1,
-            "w": [{"ops": ["ch 300"] * 40, "ys": []}, {"ops": tl, "ys": []}, {"ops": tl, "ys": []}], "joins": [], "rep": 5}
+            "w": [{"ops": ["ch 300"] * 40, "ys": []}, {"ops": tl, "ys": []}, {"ops": tl, "ys": []}], "joins": [], "rep": 40}
 
 
 # The reproduction is only active when known_findings.txt lists the key (core reports an unlisted failing
